@@ -60,11 +60,19 @@ type NativeIterator struct {
 	FormatVersion        uint32           // Snapshot FormatVersion
 	HeaderPaddingBlock   bool             // Extra padding block for testing
 	DeletedCutoff        header.Timestamp // Older deleted entries are considered stale
+	OnWrite              func()           // Optional: called for every change made to the LMDB
 
 	current int
 	started bool
 	buf     []byte
 	curKV   snapshot.KV
+}
+
+// ObserveWrite implements strategy.WriteObserver
+func (it *NativeIterator) ObserveWrite() {
+	if it.OnWrite != nil {
+		it.OnWrite()
+	}
 }
 
 func (it *NativeIterator) Next() (key []byte, err error) {
@@ -213,11 +221,19 @@ func (it *NativeIterator) addHeader(
 // PlainIterator iterates over a snapshot of a shadow database for
 // insertion into the main database without the timestamp header.
 type PlainIterator struct {
-	DBIMsg *snapshot.DBI // LMDB contents (timestamp is ignored)
+	DBIMsg  *snapshot.DBI // LMDB contents (timestamp is ignored)
+	OnWrite func()        // Optional: called for every change made to the LMDB
 
 	current int
 	started bool
 	curKV   snapshot.KV
+}
+
+// ObserveWrite implements strategy.WriteObserver
+func (it *PlainIterator) ObserveWrite() {
+	if it.OnWrite != nil {
+		it.OnWrite()
+	}
 }
 
 func (it *PlainIterator) Next() (key []byte, err error) {
